@@ -221,7 +221,7 @@ NATIVE_TWINS = {
     'C17': ('c17_registration_model', None,
             '4000 pseudo-random sequences x 16 operations (register, unregister, toggle side, move either king) on a two-king board vs a reference multiset of (placement, side to move) and a reference stack'),
     'C06': ('c06_annotation_model', None,
-            '22 positions (14 pseudo-random openings, discovered check / mate by en passant, by a quiet move, double check, promotion, back-rank mate, stalemate threat, castling check): every listed move is annotated with the verdict of its successor; player_is_in_check / player_is_in_checkmate / game_ending agree with a brute-force reading'),
+            '24 positions (14 pseudo-random openings, discovered check / mate by en passant, by a quiet move, double check, promotions incl. under-promotions, back-rank mate, stalemate threat, castling check; a fresh oracle generator per successor): every listed move is annotated with the verdict of its successor; player_is_in_check / player_is_in_checkmate / game_ending agree with a brute-force reading'),
     'C07': ('c07_search_model', None,
             '16 positions (10 pseudo-random openings, mated, stalemated, single reply, in check, promotion next, en passant) x depths 0..3, fresh context: legal move / right error, every observable of the board unchanged, no panic'),
     'C08': ('c08_minimax_model', None,
